@@ -195,10 +195,10 @@ func h2cGenerateWrapped(c *mon.Ctx, nRandom int) {
 
 	for b := 0; b < 8; b++ {
 		h := h2cCase{Fn: "H2S", Layout: "exact", Class: "concurrent"}
-		for g := 0; g < 8; g++ {
-			dl := []int{20, 300, 255, 256, 700, 16, 300, 49}[g]
+		for g := 0; g < 40; g++ {
+			dl := []int{20, 300, 255, 256, 700, 16, 300, 49}[g%8]
 			if b%2 == 1 {
-				dl = []int{300, 300, 400, 400, 300, 256, 257, 1000}[g]
+				dl = []int{300, 300, 400, 400, 300, 256, 257, 1000}[g%8]
 			}
 
 			h.Conc = append(h.Conc, h2cPair{Msg: mon.H(rr.Bytes(5 + g)), Dst: mon.H(rr.Bytes(dl))})
